@@ -1,7 +1,7 @@
 //! Shared helpers: field elements as 16-bit limbs, JSON i/o, operation names, panic capture.
 use serde_json::{json, Value};
 use std::io::{BufRead, Write};
-use vm_core::{Felt, Operation, StarkField, Word};
+use vm_core::{Felt, Operation, Word};
 
 pub fn felt_to_limbs(f: Felt) -> Value {
     let x = f.as_int();
